@@ -70,6 +70,17 @@ def mutators():
     def set_params(m, sh):
         sh.rebinding += 1
     M["parameters="] = set_params
+
+    # definition changes that leave the ODE right-hand side untouched (a declared but still unused quantity)
+    def add_param_only(m, sh):
+        m.param_list = ["k"]
+        sh.params.append("k")
+    M["add_param_only"] = add_param_only
+
+    def add_derived_only(m, sh):
+        m.derived_param_list = [("dd", "b*g")]
+        sh.derived.append(("dd", V("b") * V("g")))
+    M["add_derived_only"] = add_derived_only
     return M
 
 
@@ -105,7 +116,7 @@ def history_unit(hists, idx):
                 getattr(m, f)(x, t)
             for k, mu in enumerate(muts):
                 M[mu](m, sh)
-                if mu in ("parameters=", "add_param+event"):
+                if mu in ("parameters=", "add_param+event", "add_param_only"):
                     rebind(k + 1)
                 if k < len(muts) - 1:
                     for f in mid:
